@@ -681,7 +681,10 @@ fn gen_history(rng: &mut Rng, p: &Pools) -> Value {
 
 pub fn generate(rng: &mut Rng, n: usize, _tier: &str) -> Vec<Value> {
     let p = pools();
-    (0..n).map(|_| gen_history(rng, &p)).collect()
+    // the shared generator's streams for neighbouring seeds are shifts of one another; re-seed
+    // from its (well mixed) first output so that different VERIF_SEEDs give unrelated histories
+    let mut rng = Rng(rng.next());
+    (0..n).map(|_| gen_history(&mut rng, &p)).collect()
 }
 
 pub fn batch(inputs: &[Value]) -> Batch {
